@@ -73,6 +73,7 @@ fn main() {
         "c02t" => c02::run_traces(&args),
         "c03" => c03::run(&args),
         "c07" => c07::run(&args),
+        "c07t" => c07::run_traces(&args),
         "c11" => c11::run(&args),
         "c12" => c12::run(&args),
         "c13" => c13::run(&args),
